@@ -88,6 +88,26 @@ class Built:
             self.lang, self.am, self.factory, Model,
             AttackerAttachment if attackers else None, explicit_ids=explicit_ids)
 
+    @classmethod
+    def from_history(cls, case):
+        """real objects for a case whose model is reached through an edit history
+        (case['history'], applied in lock step with the shadow model of mtv/shadow.py);
+        the abstract model is the shadow's final state"""
+        from .shadow import Lockstep
+        self = cls.__new__(cls)
+        ls = Lockstep(case['spec'])
+        ls.check_every_step = False
+        for op in case['history']:
+            ls.apply(op)
+        self.case = case
+        self.lang = ls.lang
+        self.am = ls.abstract_model()
+        self.spec_given = None
+        self.lang_graph, self.factory, self.model = ls.lang_graph, ls.factory, ls.model
+        self.objs = {a.id: ls.real[a.key] for a in ls.sh.assets}
+        self.lockstep = ls
+        return self
+
     def attack_graph(self, cpu_s=CASE_CPU_S):
         """generate the attack graph; the toolbox's evaluator keeps duplicates in
         its lists and re-evaluates a subType operand once per target, so a few
